@@ -8,6 +8,10 @@ import FastTicc.Model.Index
 import FastTicc.Model.Stack
 import FastTicc.Model.Viterbi
 import FastTicc.Model.Repop
+import FastTicc.Model.Result
+import FastTicc.Model.MainLoop
+import FastTicc.Model.Numeric
+import FastTicc.Model.Heap
 
 open FastTicc FastTicc.Proto
 
@@ -97,6 +101,22 @@ def step (line : String) : String :=
         | "vector" => do let bs ← parseRats? beta; pure (Viterbi.withVectorBeta frows bs)
         | _ => none)
       pure (showRat (Viterbi.totalCost pts ls))
+  -- ---------------------------------------------------------------- C06 / C16
+  | ["assemble", K, labels, ll] => opt do
+      let K ← parseNat? K; let labels ← parseInts? labels; let ll ← parseRats? ll
+      let a := Result.assemble K labels ll
+      pure (showRats a.all ++ " " ++ showRat a.total ++ " " ++ showRat a.mean ++ " " ++ showRat a.median
+            ++ " " ++ showRats a.clusterMean ++ " " ++ showRats a.clusterMedian)
+  | ["clusterlists", K, labels, ll] => opt do
+      let K ← parseNat? K; let labels ← parseInts? labels; let ll ← parseRats? ll
+      pure (showRatss (Result.clusterLists K labels ll) ++ " " ++ showRatss (Result.clusterListsPinned K labels ll))
+  | ["runsparams", params, labels] => opt do
+      let ps ← parseNats? params; let labels ← parseNats? labels
+      pure (toString (Result.runsParams (fun k => ps.getD k 0) labels))
+  | ["nnz", thr, rows] => opt do
+      let t ← parseRat? thr; let rows ← parseRatss? rows
+      pure (toString (Result.nnz t rows))
+  | ["bicthreshold"] => some (showRat (mkRat Constants.bicThresholdNum Constants.bicThresholdDen)) |>.getD bad
   -- ---------------------------------------------------------------- C08
   | ["repop", K, m, spreads, order, recorded, labels] => opt do
       let K ← parseNat? K; let m ← parseNat? m
